@@ -12,6 +12,7 @@ import (
 	"math/rand"
 	"os"
 	"strconv"
+	"sync"
 	"testing"
 
 	"github.com/pgavlin/dawn/label"
@@ -119,4 +120,88 @@ func TestVerifLineWriter(t *testing.T) {
 		run([][]string{texts[rnd.Intn(len(texts))], texts[rnd.Intn(len(texts))], texts[rnd.Intn(len(texts))]})
 	}
 	flush(true)
+}
+
+// TestVerifLineWriterConcurrent drives one line writer from two goroutines at once: a target's
+// standard output and standard error are the same writer, and the two sides of a shell
+// pipeline run by sh.exec write to them concurrently. Every writer writes complete lines in
+// two chunks each ("a", "a\n"); what was written and what was delivered is counted per letter
+// and logged for the monitor.
+func TestVerifLineWriterConcurrent(t *testing.T) {
+	out := os.Getenv("VERIF_OUT")
+	if out == "" {
+		t.Skip("VERIF_OUT not set")
+	}
+	n, _ := strconv.Atoi(os.Getenv("VERIF_LW_PAR"))
+	if n == 0 {
+		n = 40
+	}
+	of, err := os.OpenFile(out, os.O_APPEND|os.O_CREATE|os.O_WRONLY, 0644)
+	if err != nil {
+		t.Fatal(err)
+	}
+	defer of.Close()
+	var batch []map[string]any
+	for c := 0; c < n; c++ {
+		ev := &lwParEvents{}
+		w := newLineWriter(&label.Label{Package: "//", Name: "t"}, ev)
+		per := 200 + 400*(c%5)
+		var wg sync.WaitGroup
+		var pmu sync.Mutex
+		panicked := ""
+		start := make(chan struct{})
+		for _, letter := range []string{"a", "b"} {
+			wg.Add(1)
+			go func(letter string) {
+				defer wg.Done()
+				defer func() {
+					if p := recover(); p != nil {
+						pmu.Lock()
+						panicked = fmt.Sprint(p)
+						pmu.Unlock()
+					}
+				}()
+				<-start
+				for i := 0; i < per; i++ {
+					w.Write([]byte(letter))
+					w.Write([]byte(letter + "\n"))
+				}
+			}(letter)
+		}
+		close(start)
+		wg.Wait()
+		func() {
+			defer func() {
+				if p := recover(); p != nil {
+					panicked = fmt.Sprint(p)
+				}
+			}()
+			w.Flush()
+		}()
+		ev.mu.Lock()
+		got := map[string]int{"a": 0, "b": 0, "lines": len(ev.lines)}
+		for _, l := range ev.lines {
+			for _, ch := range l {
+				if ch == 'a' || ch == 'b' {
+					got[string(ch)]++
+				}
+			}
+		}
+		ev.mu.Unlock()
+		batch = append(batch, map[string]any{"ev": "LinesPar", "wrote": map[string]int{"a": 2 * per, "b": 2 * per, "lines": 2 * per}, "got": got, "panic": panicked})
+	}
+	b, _ := json.Marshal(map[string]any{"id": "lwpar-0", "cfg": map[string]any{"targets": map[string]any{}, "sources": []string{}}, "events": batch})
+	of.Write(append(b, '\n'))
+}
+
+type lwParEvents struct {
+	discardEventsT
+	mu    sync.Mutex
+	lines []string
+}
+
+func (e *lwParEvents) Print(l *label.Label, line string) {
+	e.mu.Lock()
+	e.lines = append(e.lines, line)
+	e.mu.Unlock()
 }
